@@ -17,19 +17,31 @@ m=json.load(open(sys.argv[1]))
 ok=not m.get("excluded") and m.get("applies") and m.get("compiles") and m.get("existing_suite_passes_with_change") and m.get("demo_fails_with_change") and m.get("demo_passes_without_change")
 sys.exit(0 if ok else 1)
 PY
-  SW=/tmp/seedmx.$id.$$; SC=$V/.work/mx.$id.$$
+  # a small fixed set of worktree paths (slots): the Go build cache is keyed by the path of the
+  # replaced module, so a fresh path per defect would recompile (and cache) everything each time
+  slot=""
+  while [ -z "$slot" ]; do
+    for n in $(seq 1 ${PAR:-4}); do
+      if mkdir "/tmp/seedmx.lock.$n" 2>/dev/null; then slot=$n; break; fi
+    done
+    [ -z "$slot" ] && sleep 1
+  done
+  SW=/tmp/seedmx.slot$slot; SC=$V/.work/seedmx.slot$slot
+  trap 'git -C /repo worktree remove --force "$SW" >/dev/null 2>&1; rm -rf "$SC" "$SW"; rmdir "/tmp/seedmx.lock.$slot"' EXIT
+  git -C /repo worktree remove --force "$SW" >/dev/null 2>&1; rm -rf "$SW" "$SC"
   git -C /repo worktree add --detach "$SW" HEAD >/dev/null 2>&1 || { echo "$id: cannot create worktree" >&2; exit 0; }
-  trap 'git -C /repo worktree remove --force "$SW" >/dev/null 2>&1; rm -rf "$SC" $V/.work/bin/kvcheck*seedmx.$id.$$ $V/.work/mod/*seedmx.$id.$$* $V/.work/*.mx$id.$$*' EXIT
   ( cd "$SW" && { git apply "$V/$d/patch.diff" 2>/dev/null || { git apply -3 "$V/$d/patch.diff" >/dev/null 2>&1 && git reset -q; }; } ) || { printf '%s\t*\tnoapply\n' "$id"; exit 0; }
   mkdir -p "$SC"
   for c in $CHECKS; do
-    VERIF_REPO="$SW" VERIF_WORK_SUFFIX=".mx$id.$$" VERIF_EVIDENCE_DIR="$SC" VERIF_REPLAY_DIR="$SC" ./run.sh "$c" quick > "$SC/out" 2>&1
+    VERIF_REPO="$SW" VERIF_WORK_SUFFIX=".mxslot$slot" VERIF_EVIDENCE_DIR="$SC" VERIF_REPLAY_DIR="$SC" ./run.sh "$c" quick > "$SC/out" 2>&1
     rc=$?
     orc=$(grep -A1 '^VIOLATION' "$SC/out" | sed -n 's/^ *oracle=\([^ ]*\).*/\1/p' | sort -u | head -3 | tr '\n' ',')
     printf '%s\t%s\t%s\t%s\n' "$id" "$c" "$rc" "$orc"
   done
 }
 export -f one
+export PAR
+rmdir /tmp/seedmx.lock.* 2>/dev/null
 ls -d ${MUTANTS:-seeded/C*-[a-z]} | xargs -P "$PAR" -I{} bash -c 'one {}' > "$OUT.tmp"
 sort "$OUT.tmp" > "$OUT"; rm -f "$OUT.tmp"
 echo "matrix written to $OUT: $(wc -l < "$OUT") rows"
